@@ -916,7 +916,9 @@ class reactive_ops:
             params = self._reactive._params
         else:
             params = resolve_ref(self._reactive)
-        trigger = Trigger(parameters=params)
+        # The trigger also stands for the parameters of the two branches: an
+        # expression that uses the result depends on them only through it
+        trigger = Trigger(parameters=list(params) + xrefs + yrefs)
         if xrefs:
             def trigger_x(*args):
                 if self.value:
